@@ -59,7 +59,7 @@ type loopInfo struct {
 	ord     int
 	body    map[*ssa.BasicBlock]bool
 	cells   []interface{}     // cells stored to in the loop
-	fields  map[string][]ssa.Value // heap key -> base values written (nil entry => wholesale)
+	fields  map[string][]baseRef // heap key -> objects written (nil entry => wholesale)
 	whole   map[string]bool
 	hasCall bool
 }
